@@ -31,6 +31,39 @@ def load_contracts():
     return REGISTRY
 
 
+def tree_hash():
+    """content hash of everything a result depends on: /repo's python sources (the tree under test), the engine, the
+    contracts and the known-findings file"""
+    import hashlib
+
+    h = hashlib.sha256()
+    roots = [os.path.join(REPO, "cubed"), os.path.join(VERIF, "pyvc"), os.path.join(VERIF, "contracts")]
+    for root in roots:
+        for dp, dn, fns in sorted(os.walk(root)):
+            dn.sort()
+            if "__pycache__" in dp or os.sep + "tests" in dp:
+                continue
+            for f in sorted(fns):
+                if f.endswith(".py"):
+                    p = os.path.join(dp, f)
+                    h.update(p.encode())
+                    with open(p, "rb") as fh:
+                        h.update(fh.read())
+    for k in ("PYVC_METER", "VERIF_SEED"):
+        h.update(f"{k}={os.environ.get(k, '')}".encode())
+    return h.hexdigest()
+
+
+def _cache_path(name, cfg, tier, exclude):
+    import hashlib
+
+    th = os.environ.get("PYVC_TREEHASH")
+    if not th:
+        return None
+    key = hashlib.sha256(json.dumps([name, cfg, tier, list(exclude), th], sort_keys=True, default=str).encode()).hexdigest()
+    return os.path.join(VERIF, ".cache", key + ".json")
+
+
 def _job(args):
     name, cfg, tier = args[:3]
     exclude = args[3] if len(args) > 3 else ()
@@ -39,12 +72,33 @@ def _job(args):
 
     spec = REGISTRY[name]
     t0 = time.time()
+    # results of the slow thorough tier are shared between the properties a contract serves (same tree, same engine,
+    # same contracts: the key is a content hash of all three); only fully decided results are stored
+    cp = _cache_path(name, cfg, tier, exclude)
+    if cp and os.path.exists(cp):
+        try:
+            with open(cp) as f:
+                d = json.load(f)
+            d["cached"] = True
+            return d
+        except Exception:  # noqa: BLE001
+            pass
     try:
         if hasattr(spec, "analyze"):
             d = spec.analyze(cfg, tier)
         else:
             r = verify(spec, cfg, tier, exclude=exclude)
             d = r.as_dict()
+        if cp and not d.get("errors") and not d.get("undecided") and all(o["result"] in ("discharged", "failed") for o in d["obligations"]) \
+                and all(v is not None for v in (d.get("canaries") or {}).values()):
+            try:
+                os.makedirs(os.path.dirname(cp), exist_ok=True)
+                tmp = cp + f".{os.getpid()}.tmp"
+                with open(tmp, "w") as f:
+                    json.dump(d, f, default=str)
+                os.replace(tmp, cp)
+            except Exception:  # noqa: BLE001
+                pass
     except Exception as e:  # noqa: BLE001
         import traceback
 
@@ -161,6 +215,8 @@ def main(argv=None):
     if not specs:
         print(f"checker broken: no contracts registered for {prop}")
         return 3
+    if (a.tier == "thorough" or os.environ.get("PYVC_CACHE")) and not os.environ.get("PYVC_NO_CACHE"):
+        os.environ["PYVC_TREEHASH"] = tree_hash()
     jobs = []
     for s in specs:
         for cfg in s.configs(a.tier):
@@ -355,6 +411,7 @@ def main(argv=None):
             backends=backends, solver_s_total=round(solver_s, 3),
             configurations=len(jobs),
             paths_explored=sum(r["paths"] for r in results),
+            configurations_from_cache=sum(1 for r in results if r.get("cached")),
             scoped_subpaths_explored=sum(r.get("scoped_paths", 0) for r in results),
             known_finding_obligations=known_obs,
             failed_obligations=[dict(contract=n, cfg=c, obligation=o["name"]) for n, c, o in failed][:40],
